@@ -8,4 +8,35 @@ CLAIMS = {
                  "caller's data and the reported bins; contents, errors2, under/overflow and the accounting identity are compared with ==. "
                  "Exploration: held on the executions produced, not a proof."),
     },
+    "C02": {
+        "technique": "runtime post-condition monitor on h / h2 / h3 (exact per-row reference model) under seeded hostile workloads + repository tests",
+        "text": ("Every observed h/h2/h3 call is re-derived row by row from the caller's data, the reported per-axis bins and each binning's own "
+                 "right-edge flag; cell contents, errors2, missed and total+missed are compared exactly; per-axis arguments, bin counts and data "
+                 "coverage are checked on their own axis (columns live in different ranges so axis mix-ups are visible). Exploration."),
+    },
+    "C03": {
+        "technique": "per-call delta monitor on fill / fill_n / find_bin + history equivalence of entry paths (construction, fill, fill_n, mixtures)",
+        "text": ("Each observed fill/fill_n must change exactly the destination the reference model names by exactly the weight, find_bin must agree "
+                 "and change nothing; for random data sets the final states reached by construction, single fills in random order, fill_n over random "
+                 "partitions and mixtures are compared (1D regular/irregular/gapped, 2-3D with right-open and right-closed axes, keep_missed on/off). Exploration."),
+    },
+    "C04": {
+        "technique": "history monitor with a grid model on adaptive histograms (per-step interval-map conservation, coverage, grid, span) + final ledger comparison",
+        "text": ("After every fill / fill_n of random histories on adaptive fixed-width histograms (1-3D, non-dyadic widths, values on / one ulp beside "
+                 "grid points, far values, empty and NaN batches, align/shift options) the step monitor checks that nothing was lost, every value is in a bin, "
+                 "old edges stay edges, contents stay attached to their intervals and the span is exact; the final state is compared with the exact model of "
+                 "everything entered; data-derived fixed_width/pretty/integer binnings must cover their data. Exploration."),
+    },
+    "C12": {
+        "technique": "world monitor: snapshots of all live histograms around every public call in random derivation x mutation histories",
+        "text": ("Random histories over a small population (constructions, all derivations named in the statement, mutations incl. adaptive growth, direct "
+                 "metadata edits); around every public call every live object is snapshotted and every object other than the mutation target must be "
+                 "bit-identical afterwards; copy() and copy(include_frequencies=False) are checked for equality / usability. Exploration."),
+    },
+    "C18": {
+        "technique": "world monitor (well-formedness after every public call, atomicity after every raise) + fault injection in random histories",
+        "text": ("Random histories with invalid calls injected at every position; after every public call shapes and signs of every object touched are "
+                 "checked, after every raise the target's contents per interval, errors2 and missed values must equal the pre-call values; calls the "
+                 "statements require to be refused must raise. Exploration."),
+    },
 }
